@@ -350,3 +350,24 @@ def site_shape(what):
             args.append(cur.strip())
         parts.append("%s(%s)" % (m.group(1), ", ".join(a if re.fullmatch(r"'.*'|\d+", a) else "…" for a in args)))
     return "; ".join(parts)
+
+
+def prove_neg_nonneg(bv, site):
+    """Proof for an `OverflowNeg` assert: the negated value is the Ok payload of a checked conversion of an unsigned
+    quantity (`iN::try_from(duration.as_micros())?`), hence >= 0, and only iN::MIN overflows under negation."""
+    from .core import strip, walk
+    t = site["t"]
+    ops = t.get("ops", [])
+    if site.get("desc") != "assert:OverflowNeg" or not ops:
+        return None
+    x = strip(bv.trace_op(ops[0]))
+    # payload projection of a Result/ControlFlow/Option
+    if not (x[0] == "okpayload" or (x[0] == "field" and strip(x[1])[0] == "downcast" and strip(x[1])[2] in ("Ok", "Continue", "Some"))):
+        return None
+    conv = [y for y in walk(x) if y[0] == "call" and lib.norm(y[1]).split("::")[-1] in ("try_from", "try_into")]
+    if not conv:
+        return None
+    src = strip(conv[-1][2][0]) if conv[-1][2] else ("undef",)
+    if src[0] == "call" and lib.norm(src[1]) in ("std::time::Duration::as_micros", "std::time::Duration::as_nanos", "std::time::Duration::as_millis", "std::time::Duration::as_secs", "std::time::Duration::subsec_nanos"):
+        return "negation of a checked conversion of Duration::%s() (unsigned, so the value is >= 0)" % lib.norm(src[1]).split("::")[-1]
+    return None
